@@ -732,7 +732,7 @@ rU(uint64(bits.RotateLeft32(x, int(a1))))`))
 }
 `
 	dEnc64 := ctl("enc64", 0, 1, 2, 3, 4)
-	b64enc := "e := b64(a1)\nrS(e.EncodeToString([]byte(a0)))\nrI(int64(e.EncodedLen(len(a0))))\nrI(int64(e.DecodedLen(len(a0))))\ndst := make([]byte, e.EncodedLen(len(a0)))\ne.Encode(dst, []byte(a0))\nrY(dst)\nback, err := e.DecodeString(string(dst))\nrY(back)\nrEs(err)"
+	b64enc := "e := b64(a1)\nrS(e.EncodeToString([]byte(a0)))\nrI(int64(e.EncodedLen(len(a0))))\nrI(int64(e.DecodedLen(len(a0))))\ndst := make([]byte, e.EncodedLen(len(a0)))\ne.Encode(dst, []byte(a0))\nrY(dst)\nback, err := e.DecodeString(string(dst))\nrY(back)\nrE(err)"
 	add(mk("base64.Encode", "encoding/base64", []*dom{dB4, dEnc64}, b64enc).decls(encDecl))
 	add(mk("base64.Encode/long", "encoding/base64", []*dom{dB2, dEnc64}, b64enc).decls(encDecl))
 	d64len := 4
@@ -740,18 +740,22 @@ rU(uint64(bits.RotateLeft32(x, int(a1))))`))
 		d64len = 6
 	}
 	dD64 := genStrs(fmt.Sprintf("d64_%d", d64len), []string{"A", "Q", "/", "+", "-", "_", "=", "\n", "!"}, d64len)
-	add(mk("base64.Decode", "encoding/base64", []*dom{dD64, dEnc64}, "e := b64(a1)\nb, err := e.DecodeString(a0)\nrY(b)\nrEs(err)\ndst := make([]byte, e.DecodedLen(len(a0))+4)\nn, err2 := e.Decode(dst, []byte(a0))\nrI(int64(n))\nrEs(err2)\nif n >= 0 && n <= len(dst) {\n\trY(dst[:n])\n}").decls(encDecl))
+	add(mk("base64.Decode", "encoding/base64", []*dom{dD64, dEnc64}, "e := b64(a1)\nb, err := e.DecodeString(a0)\nrY(b)\nrE(err)\ndst := make([]byte, e.DecodedLen(len(a0))+4)\nn, err2 := e.Decode(dst, []byte(a0))\nrI(int64(n))\nrE(err2)\nif n >= 0 && n <= len(dst) {\n\trY(dst[:n])\n}").decls(encDecl))
 	dD64b := genStrs("d64b", []string{"A", "/", "="}, 8) // 9841: whole quanta with padding in every position
-	add(mk("base64.Decode/quanta", "encoding/base64", []*dom{dD64b, dEnc64}, "e := b64(a1)\nb, err := e.DecodeString(a0)\nrY(b)\nrEs(err)").decls(encDecl))
+	add(mk("base64.Decode/quanta", "encoding/base64", []*dom{dD64b, dEnc64}, "e := b64(a1)\nb, err := e.DecodeString(a0)\nrY(b)\nrE(err)").decls(encDecl))
 	const enc32Decl = "func b32(k int64) *base32.Encoding {\n\tif k == 0 {\n\t\treturn base32.StdEncoding\n\t}\n\treturn base32.HexEncoding\n}\n"
 	dEnc32 := ctl("enc32", 0, 1)
-	b32enc := "e := b32(a1)\nrS(e.EncodeToString([]byte(a0)))\nrI(int64(e.EncodedLen(len(a0))))\nrI(int64(e.DecodedLen(len(a0))))\ndst := make([]byte, e.EncodedLen(len(a0)))\ne.Encode(dst, []byte(a0))\nrY(dst)\nback, err := e.DecodeString(string(dst))\nrY(back)\nrEs(err)"
+	b32enc := "e := b32(a1)\nrS(e.EncodeToString([]byte(a0)))\nrI(int64(e.EncodedLen(len(a0))))\nrI(int64(e.DecodedLen(len(a0))))\ndst := make([]byte, e.EncodedLen(len(a0)))\ne.Encode(dst, []byte(a0))\nrY(dst)\nback, err := e.DecodeString(string(dst))\nrY(back)\nrE(err)"
 	add(mk("base32.Encode", "encoding/base32", []*dom{dB4, dEnc32}, b32enc).decls(enc32Decl))
 	add(mk("base32.Encode/long", "encoding/base32", []*dom{dB2, dEnc32}, b32enc).decls(enc32Decl))
-	add(mk("base32.Decode", "encoding/base32", []*dom{genStrs("d32", []string{"A", "7", "=", "!", "\n"}, 4), dEnc32}, "e := b32(a1)\nb, err := e.DecodeString(a0)\nrY(b)\nrEs(err)").decls(enc32Decl))
-	add(mk("base32.Decode/quanta", "encoding/base32", []*dom{genStrs("d32b", []string{"A", "7", "="}, 8), dEnc32}, "e := b32(a1)\nb, err := e.DecodeString(a0)\nrY(b)\nrEs(err)").decls(enc32Decl))
+	add(mk("base32.Decode", "encoding/base32", []*dom{genStrs("d32", []string{"A", "7", "=", "!", "\n"}, 4), dEnc32}, "e := b32(a1)\nb, err := e.DecodeString(a0)\nrY(b)\nrE(err)").decls(enc32Decl))
+	add(mk("base32.Decode/quanta", "encoding/base32", []*dom{genStrs("d32b", []string{"A", "7", "="}, 8), dEnc32}, "e := b32(a1)\nb, err := e.DecodeString(a0)\nrY(b)\nrE(err)").decls(enc32Decl))
 	add(mk("hex.Encode", "encoding/hex", []*dom{dB4}, "rS(hex.EncodeToString([]byte(a0)))\ndst := make([]byte, hex.EncodedLen(len(a0)))\nrI(int64(hex.Encode(dst, []byte(a0))))\nrY(dst)\nrS(hex.Dump([]byte(a0)))"))
-	add(mk("hex.Decode", "encoding/hex", []*dom{genStrs("dhex", []string{"0", "9", "a", "F", "g", " "}, 4)}, "b, err := hex.DecodeString(a0)\nrY(b)\nrEs(err)\ndst := make([]byte, hex.DecodedLen(len(a0))+1)\nn, err2 := hex.Decode(dst, []byte(a0))\nrI(int64(n))\nrEs(err2)"))
+	add(mk("hex.Decode", "encoding/hex", []*dom{genStrs("dhex", []string{"0", "9", "a", "F", "g", " "}, 4)}, "b, err := hex.DecodeString(a0)\nrY(b)\nrE(err)\nrB(err == hex.ErrLength)\ndst := make([]byte, hex.DecodedLen(len(a0))+1)\nn, err2 := hex.Decode(dst, []byte(a0))\nrI(int64(n))\nrE(err2)\nrB(err2 == hex.ErrLength)"))
+	// the error texts (they carry the offset / the offending byte), on a handful of inputs
+	add(mk("base64.CorruptInputError.Error", "encoding/base64", []*dom{litStr("e64", []string{"A", "AA=A", "!AAA", "AAA!", "AAAAAAA=A", "A=AA"}, false)}, "_, err := base64.StdEncoding.DecodeString(a0)\nrEs(err)"))
+	add(mk("base32.CorruptInputError.Error", "encoding/base32", []*dom{litStr("e32", []string{"A", "AAAAAAA!", "!AAAAAAA", "AA======A", "A======="}, false)}, "_, err := base32.StdEncoding.DecodeString(a0)\nrEs(err)"))
+	add(mk("hex.InvalidByteError.Error", "encoding/hex", []*dom{litStr("ehex", []string{"g", "0g", "0", "\xff0", "000"}, false)}, "_, err := hex.DecodeString(a0)\nrEs(err)"))
 	const dataDecl = `func mkData(n int64, pat int64) []byte {
 	b := make([]byte, int(n))
 	for i := range b {
